@@ -28,13 +28,22 @@ theorem C11_anchors :
     roarExc.nameIs A.nonpep "BeartypeDecorHintNonpepException" ∧
     roarExc.nameIs A.pepUnsupported "BeartypeDecorHintPepUnsupportedException" ∧
     roarExc.nameIs A.pep484 "BeartypeDecorHintPep484Exception" ∧
-    roarExc.nameIs A.mixin "_BeartypeHintForwardRefExceptionMixin" ∧ roarWarn.nameIs A.warning "BeartypeWarning" := by
-  refine ⟨?_, ?_, ?_, ?_, ?_, ?_, ?_, ?_, ?_, ?_, ?_, ?_, ?_, ?_, ?_, ?_, ?_⟩ <;> decide +kernel
+    roarExc.nameIs A.mixin "_BeartypeHintForwardRefExceptionMixin" ∧
+    roarExc.nameIs A.pepRaise "_BeartypeCallHintPepRaiseException" ∧
+    roarExc.nameIs A.callFwdRefStr "BeartypeCallHintPep484ForwardRefStrException" ∧
+    roarWarn.nameIs A.warning "BeartypeWarning" := by
+  refine ⟨?_, ?_, ?_, ?_, ?_, ?_, ?_, ?_, ?_, ?_, ?_, ?_, ?_, ?_, ?_, ?_, ?_, ?_, ?_⟩ <;> decide +kernel
 
 /-- The extracted hierarchies are well formed: every base class is defined before its subclasses (acyclic) and the
     ancestor list each row carries is the reflexive-transitive closure of `bases`, so `Table.under` is `issubclass`. -/
 theorem C11_hierarchy_wf : roarExc.wf = true ∧ roarWarn.wf = true := by
   constructor <;> decide +kernel
+
+/-- … and on them `Table.under` IS `issubclass`: class `c` is under `r` iff `r` is reachable from `c` through zero or more
+    base-class edges of the extracted table (for every pair of indices, not only the anchored ones). -/
+theorem C11_under_is_reachability (c r : Nat) :
+    (roarExc.under c r = true ↔ Reach roarExc c r) ∧ (roarWarn.under c r = true ↔ Reach roarWarn c r) :=
+  ⟨under_iff_reach C11_hierarchy_wf.1 c r, under_iff_reach C11_hierarchy_wf.2 c r⟩
 
 /-- "Public" is one notion: a class is re-exported by `beartype.roar` iff its name has no leading underscore (no internal
     class is exported, no public class is forgotten). -/
@@ -127,6 +136,18 @@ theorem C11_placeholder_sites_wrapped :
        (fun h => roarReraiseHandlers.contains h) = true := by
   constructor <;> decide +kernel
 
+/-- **Witnesses for the listed findings that escape as beartype classes** (known_findings.json): the internal
+    `_BeartypeCallHintPepRaiseException` seen at call time and from `die_if_unbearable`, and the call-time
+    `BeartypeCallHintPep484ForwardRefStrException` seen at DECORATION time (`type['int | nonexistent']`), are indeed outside
+    what `Table.allowed` admits there — while the latter is admitted where it is documented (calls, the functional door API).
+    The other listed findings escape as builtins (`TypeError`, `AttributeError`, `AssertionError`, `RecursionError`), which
+    no index of the table denotes. -/
+theorem C11_wrong_family_counterexample :
+    roarExc.allowed A .call A.pepRaise = false ∧ roarExc.allowed A .dieIfUnbearable A.pepRaise = false ∧
+    roarExc.allowed A .decor A.callFwdRefStr = false ∧
+    roarExc.allowed A .call A.callFwdRefStr = true ∧ roarExc.allowed A .isBearable A.callFwdRefStr = true := by
+  refine ⟨?_, ?_, ?_, ?_, ?_⟩ <;> decide +kernel
+
 /-! ### `reraise_exception_placeholder` -/
 
 /-- **Re-raising keeps the class**: whatever the exception and the substituted text, the re-raised object has the class
@@ -182,6 +203,7 @@ theorem C11_user_hash_error_propagates (f : Key → Own) (c : Cache) (t : Nat) :
 
 /-! ### classifying an arbitrary object used as a hint -/
 
+set_option linter.unusedSimpArgs false in
 /-- **The decision table of `die_unless_hint`** (totality is by construction: `classify` is a total function into
     `Outcome`, which has no "raw exception" constructor): an object is accepted iff `is_hint` holds; a PEP-compliant but
     unsupported one is answered by `BeartypeDecorHintPepUnsupportedException` (`typing.NoReturn`:
